@@ -102,7 +102,7 @@ def run(ck, tier, seed):
         for spec, rc, err in ex.map(one_tsan, tsan_runs):
             ck.evaluations += 1
             if "WARNING: ThreadSanitizer" in err:
-                m = re.search(r"WARNING: ThreadSanitizer: ([^\n]*)", err)
+                m = re.search(r"WARNING: ThreadSanitizer: ([^\n(]*)", err)
                 fn = re.findall(r"#\d+ (chaiscript::[\w:<>~]+)", err)
                 ck.violation(f"tsan:{m.group(1).strip() if m else 'report'}:{fn[0] if fn else ''}",
                              f"ThreadSanitizer report on a stress run (threads={spec[0]} seed={spec[1]}): {m.group(1) if m else ''}",
